@@ -18,6 +18,8 @@ OPTION_SETS = [
     dict(name='convert', entry='convert', recursive=True, features=()),
     dict(name='convert:nonrecursive+eq', entry='convert', recursive=False, features=('EQUALITY_OPERATORS',)),
 ]
+# the LISTS feature is claimed only "for list operations on local variables and parameters": programs that keep a list
+LISTS_OPTION = dict(name='to_graph:lists', entry='to_graph', recursive=True, features=('LISTS',), only_lists=True)
 
 
 def load_module(p, pid, wd, src=None):
@@ -61,11 +63,11 @@ def world(decisions, module):
     return run
 
 
-def observe(module, fn, p, decisions, recorder=None):
+def observe(module, fn, p, decisions, recorder=None, inp=None):
     run = world(decisions, module)
     if recorder is not None:
         recorder.run = run
-    out = mp.outcome(fn, mp.main_args(p))
+    out = mp.outcome(fn, mp.main_args(p, inp))
     return dict(log=run.log, out=out, used=run.di)
 
 
@@ -174,6 +176,9 @@ def _replay_chunk(args):
             fn = getattr(m, p['fns'][0]['name'])
             conv = {}
             for o in opts:
+                if o.get('only_lists') and not p.get('lists'):
+                    conv[o['name']] = None
+                    continue
                 if record_namer:
                     current['pid'] = pid
                 try:
@@ -194,7 +199,7 @@ def _replay_chunk(args):
                 del recorder.events[:]
                 recorder.counts = {}
             del fallback[:]
-            res = observe(m, g, p, rec['dec'], recorder)
+            res = observe(m, g, p, rec['dec'], recorder, inp=rec.get('inp'))
             n += 1
             if fallback and 'could not transform' in fallback[0]:
                 conv_errors.append(dict(pid=pid, opt=o['name'], error='ConversionFallback: ' + ' '.join(fallback[0].split())[:300]))
@@ -216,7 +221,9 @@ def _replay_chunk(args):
                 if rec['out'][0] == 'exc':
                     exp_events = [e for e in exp_events if e[1] < rec['xlog']]
                 # events inside module-level callees (flag 1) exist only when the callee is converted as well
-                exp_events = [e[:2] for e in exp_events if len(e) < 3 or e[2] == 0 or o['recursive']]
+                # ... and method calls on lists (flag 2) only when the LISTS feature does not turn them into list operators
+                exp_events = [e[:2] for e in exp_events if len(e) < 3 or e[2] == 0 or (e[2] == 1 and o['recursive'])
+                              or (e[2] == 2 and 'LISTS' not in o['features'])]
                 if 'ulog' in rec and agree(rec, res) is None and not embeds(exp_events, recorder.events):
                     routing.append(dict(pid=pid, dec=rec['dec'], opt=o['name'], expected=exp_events,
                                         observed=[list(e) for e in recorder.events]))
